@@ -46,9 +46,10 @@ type request struct {
 }
 
 type execEnv struct {
-	spec  *planSpec
-	tm    *treeModel
-	nonce string
+	spec     *planSpec
+	tm       *treeModel
+	nonce    string
+	dedupeOn bool // option set of the tree being executed (branch kind: a surviving duplicate serves all branches)
 
 	mu          sync.Mutex
 	clock       int64
@@ -117,7 +118,7 @@ type entityInput struct {
 func (e *execEnv) identify(dsFetch int, input []byte, req *request) {
 	req.ids = []int{dsFetch}
 	f := e.spec.get(dsFetch)
-	if e.spec.Kind != "entity" || f == nil || f.Root {
+	if (e.spec.Kind != "entity" && e.spec.Kind != "branch") || f == nil || f.Root {
 		return
 	}
 	var in entityInput
@@ -218,6 +219,9 @@ func (e *execEnv) respond(req *request) ([]byte, int, error) {
 	if f == nil {
 		return nil, 0, fmt.Errorf("unknown fetch %d", req.dsFetch)
 	}
+	if spec.Kind == "branch" {
+		return e.respondBranch(req, f), 0, nil
+	}
 	if spec.Kind != "entity" {
 		okStatus := 0
 		if spec.faulty() {
@@ -277,6 +281,115 @@ func (e *execEnv) respond(req *request) ([]byte, int, error) {
 		}
 	}
 	return []byte(`{"data":{` + strings.Join(parts, ",") + `}}`), 0, nil
+}
+
+// respondBranch: answers of the fake subgraphs of a branch plan. Entity requests get one entity
+// per representation they carry, in request order.
+func (e *execEnv) respondBranch(req *request, f *fetchSpec) []byte {
+	spec := e.spec
+	if f.Root {
+		items := make([]string, len(spec.Items))
+		for i, it := range spec.Items {
+			if it.Native {
+				items[i] = fmt.Sprintf(`{"__typename":%q,"id":%q,"o":{"__typename":%q,"id":%q}}`, it.Type, it.ID, brOwnerType, it.Owner)
+			} else {
+				items[i] = fmt.Sprintf(`{"__typename":%q,"id":%q}`, it.Type, it.ID)
+			}
+		}
+		return []byte(fmt.Sprintf(`{"data":{"r%d":%q,"l":[%s]}}`, f.ID, e.token(f.ID), strings.Join(items, ",")))
+	}
+	if req.parseErr != "" {
+		return []byte(`{"errors":[{"message":"fake subgraph could not read the request"}],"data":null}`)
+	}
+	var in entityInput
+	var reps []map[string]any
+	if json.Unmarshal([]byte(req.input), &in) == nil {
+		_ = json.Unmarshal(in.Body.Variables["representations"], &reps)
+	}
+	out := make([]string, len(reps))
+	for i, rep := range reps {
+		switch f.Flavor {
+		case flBrProvider:
+			o := ""
+			if f.DS == 1 {
+				// the relation object of the item the representation names
+				owner := "?"
+				for _, it := range spec.Items {
+					if it.ID == rep["id"] {
+						owner = it.Owner
+					}
+				}
+				o = fmt.Sprintf(`,"o":{"__typename":%q,"id":%q}`, brOwnerType, owner)
+			}
+			out[i] = fmt.Sprintf(`{"p%d":%q%s}`, f.ID, e.token(f.ID), o)
+		case flBrOwner:
+			out[i] = fmt.Sprintf(`{"name":%q}`, e.token(f.ID))
+		default:
+			out[i] = fmt.Sprintf(`{"x%d":%q}`, f.ID, e.token(f.ID))
+		}
+	}
+	return []byte(`{"data":{"_entities":[` + strings.Join(out, ",") + `]}}`)
+}
+
+// checkBranchContent: a branch-kind request must carry one representation per item it covers,
+// each with the values its dependencies delivered: the relation objects of the non-native types
+// exist only once their provider was merged, o.name only once the owner fetch was merged.
+func (e *execEnv) checkBranchContent(r *request) (msg, what string) {
+	spec := e.spec
+	f := spec.get(r.dsFetch)
+	if f == nil {
+		return "", ""
+	}
+	if f.Root {
+		if want := fmt.Sprintf(`{"id":%d,"deps":[]}`, f.ID); r.input != want {
+			return fmt.Sprintf("request of fetch %d is %s, expected %s", f.ID, r.input, want), "other"
+		}
+		return "", ""
+	}
+	var in entityInput
+	if err := json.Unmarshal([]byte(r.input), &in); err != nil {
+		return "", ""
+	}
+	var reps []map[string]any
+	if err := json.Unmarshal(in.Body.Variables["representations"], &reps); err != nil {
+		return fmt.Sprintf("fetch %d: variable representations is not a list of objects: %s", f.ID, string(in.Body.Variables["representations"])), "other"
+	}
+	merged := e.dedupeOn && e.tm.count[f.ID] >= 1
+	covered := spec.brCovered(f, merged)
+	if len(reps) != len(covered) {
+		return fmt.Sprintf("fetch %d: %d representations, expected %d (one per item of the branches it serves; the relation object of an item exists once its provider was merged): %s", f.ID, len(reps), len(covered), string(in.Body.Variables["representations"])), "count"
+	}
+	for i, it := range covered {
+		want := map[string]any{"__typename": brOwnerType, "id": it.Owner}
+		if f.Flavor == flBrProvider {
+			want = map[string]any{"__typename": it.Type, "id": it.ID}
+			for _, d := range f.Deps {
+				if df := spec.get(d); df != nil && df.Flavor == flBrProvider {
+					want[fmt.Sprintf("p%d", d)] = e.token(d)
+				}
+			}
+		}
+		if f.Flavor == flBrReader {
+			for _, d := range f.Deps {
+				if df := spec.get(d); df != nil && df.Flavor == flBrOwner {
+					want["name"] = e.token(d)
+				}
+			}
+		}
+		for k, wv := range want {
+			if gv, ok := reps[i][k]; !ok || gv != wv {
+				what = "other"
+				if ok && gv == nil {
+					what = "null"
+				}
+				return fmt.Sprintf("fetch %d: representation %d has %s=%v, expected %v (the value its dependency delivered): %s", f.ID, i, k, gv, wv, string(in.Body.Variables["representations"])), what
+			}
+		}
+		if len(reps[i]) != len(want) {
+			return fmt.Sprintf("fetch %d: representation %d has unexpected fields: %s", f.ID, i, string(in.Body.Variables["representations"])), "other"
+		}
+	}
+	return "", ""
 }
 
 // ---------------------------------------------------------------------------------------------
@@ -647,7 +760,7 @@ func execute(resp *resolve.GraphQLResponse, rt *planRuntime, env *execEnv, sch s
 	defer cancel()
 	rctx := resolve.NewContext(ctx)
 	rctx.LoaderHooks = env
-	if env.spec.Kind == "dup" {
+	if env.spec.Kind == "dup" || env.spec.Kind == "branch" {
 		// duplicates that survive (de-duplication disabled) are identical requests; keep each
 		// planned request visible at the subgraph instead of letting single-flight join them
 		rctx.ExecutionOptions.DisableSubgraphRequestDeduplication = true
@@ -765,7 +878,21 @@ func (e *execEnv) checkExecution(res *fw.Result, o optSet, sch schedule, oc *exe
 				viol("runtime.unknown-request", fmt.Sprintf("request for unplanned fetch %d", id), map[string]string{})
 				continue
 			}
-			for _, d := range spec.trueDeps(f) {
+			// the request also stands for the copies of f's duplicate class that de-duplication
+			// removed from the tree: it reads what they read
+			deps := spec.trueDeps(f)
+			if o.DedupeOn && spec.rep(id) == id {
+				for _, m := range spec.classMembers(id) {
+					if m != id && tm.count[m] == 0 {
+						for _, d := range spec.trueDeps(spec.get(m)) {
+							if spec.class(d) != spec.class(id) && !containsInt(deps, d) {
+								deps = append(deps, d)
+							}
+						}
+					}
+				}
+			}
+			for _, d := range deps {
 				sd, ok := standIn(d)
 				if !ok {
 					continue
@@ -808,6 +935,9 @@ func (e *execEnv) checkExecution(res *fw.Result, o optSet, sch schedule, oc *exe
 
 func (e *execEnv) checkContent(r *request) (msg, what string) {
 	spec := e.spec
+	if spec.Kind == "branch" {
+		return e.checkBranchContent(r)
+	}
 	if spec.Kind != "entity" || spec.get(r.dsFetch) == nil || spec.get(r.dsFetch).Root {
 		f := spec.get(r.dsFetch)
 		if f == nil {
